@@ -129,6 +129,7 @@ fn worker_main(args: &[String]) -> i32 {
     let runs: u64 = args[5].parse().unwrap();
     let outfile = &args[6];
     world::install_panic_hook();
+    world::warm_up();
 
     let mut cases = 0u64;
     let mut execs = 0u64;
@@ -324,6 +325,7 @@ fn run_main(args: &[String]) -> i32 {
     let dir = verif_dir();
     let start = Instant::now();
     world::install_panic_hook();
+    world::warm_up();
 
     if let Err(err) = seam_selfcheck() {
         eprintln!("HARNESS ERROR: seam self-check failed: {}", err);
@@ -565,6 +567,7 @@ fn replay_main(args: &[String]) -> i32 {
     let path = &args[1];
     let prop = find_prop(id);
     world::install_panic_hook();
+    world::warm_up();
     if let Err(err) = seam_selfcheck() {
         eprintln!("HARNESS ERROR: seam self-check failed: {}", err);
         return 2;
@@ -601,6 +604,7 @@ fn case_main(args: &[String]) -> i32 {
     let prop = find_prop(&args[0]);
     let index: u64 = args[1].parse().unwrap();
     world::install_panic_hook();
+    world::warm_up();
     let mut rng = rng::Rng::new(rng::mix(env_seed(), prop.id(), index));
     let case = prop.generate(&mut rng, false);
     println!("{}", serde_json::to_string_pretty(&case).unwrap());
@@ -626,6 +630,7 @@ fn main() {
         Some("case") if args.len() >= 3 => case_main(&args[1..]),
         Some("selftest") => {
             world::install_panic_hook();
+    world::warm_up();
             match seam_selfcheck() {
                 Ok(()) => {
                     println!("seam self-check ok");
